@@ -34,6 +34,8 @@ def genHex15 (seed : Nat) (maxLen : Nat) (randomCases : Nat) : Array String := I
       out := out.push s!"hex rangefull {h}"
       out := out.push s!"hex roundtrip {h}"
       out := out.push s!"hex tobits {h}"
+      out := out.push s!"hex bool {h}"
+      out := out.push s!"hex utf8 {h}"
       let idx := (List.range (len + 3)) ++ [maxU, maxU - 1]
       for i in idx do
         out := out.push s!"hex index {h} {i}"
@@ -70,6 +72,53 @@ def genHex15 (seed : Nat) (maxLen : Nat) (randomCases : Nat) : Array String := I
       out := out.push s!"hex roundtrip {h}"
       out := out.push s!"hex tobits {h}"
       out := out.push s!"hex view {h}"
+  -- the narrower conversions: From<i8/i16/i32/f32>, From<bool>
+  for w in [1, 2, 4] do
+    let top := 256 ^ w
+    for n in [0, 1, 2, 127, 128, 255, 256, 32767, 32768, 65535, 65536, 0x7F800000, 0x7FC00001, 0x7F800001, 0xFF800000, 0x80000000, 0x3F800000, 2 ^ 31 - 1, 2 ^ 32 - 1] do
+      if n < top then out := out.push s!"hex ofint {w} {n}"
+    for _ in [0:randomCases / 4 + 4] do
+      let (r', x) := rng.below top
+      rng := r'
+      out := out.push s!"hex ofint {w} {x}"
+  out := out.push "hex ofbool 0"
+  out := out.push "hex ofbool 1"
+  -- text: from_str_bytes / to_utf8. Boundary code points of every encoded width, then byte strings that are
+  -- almost UTF-8 (overlong forms, surrogates, beyond U+10FFFF, truncated and stray continuation bytes)
+  let cps : List Nat := [0, 1, 0x41, 0x7F, 0x80, 0x3B1, 0x7FF, 0x800, 0xD7FF, 0xE000, 0xFFFD, 0xFFFF, 0x10000, 0x1D711, 0x10FFFF]
+  for a in cps do
+    out := out.push s!"hex ofstr {showTextTok [Char.ofNat a]}"
+    for b in [0x41, 0x3B1, 0x20AC, 0x1F600] do
+      out := out.push s!"hex ofstr {showTextTok [Char.ofNat a, Char.ofNat b]}"
+      out := out.push s!"hex ofstr {showTextTok [Char.ofNat b, Char.ofNat a, Char.ofNat b]}"
+  out := out.push "hex ofstr T:"
+  let almost : List (List UInt8) := [[0xC0, 0x80], [0xC1, 0xBF], [0xC2], [0xC2, 0x41], [0xC2, 0x80], [0xDF, 0xBF], [0xE0, 0x80, 0x80], [0xE0, 0x9F, 0xBF],
+    [0xE0, 0xA0, 0x80], [0xE0, 0xA0], [0xED, 0x9F, 0xBF], [0xED, 0xA0, 0x80], [0xED, 0xBF, 0xBF], [0xEE, 0x80, 0x80], [0xEF, 0xBF, 0xBF],
+    [0xF0, 0x80, 0x80, 0x80], [0xF0, 0x8F, 0xBF, 0xBF], [0xF0, 0x90, 0x80, 0x80], [0xF0, 0x90, 0x80], [0xF4, 0x8F, 0xBF, 0xBF], [0xF4, 0x90, 0x80, 0x80],
+    [0xF5, 0x80, 0x80, 0x80], [0xF8, 0x88, 0x80, 0x80, 0x80], [0xFF], [0xFE], [0x80], [0xBF], [0x41, 0x80], [0x41, 0xC3], [0xC3, 0xA9, 0x80],
+    [0x41, 0xE2, 0x82, 0xAC, 0x42], [0x41, 0xE2, 0x82], [0xE2, 0x28, 0xA1], [0xE2, 0x82, 0x28], [0xF0, 0x9F, 0x98, 0x80, 0xF0, 0x9F, 0x98], [0xF0, 0x28, 0x8C, 0xBC],
+    [0xF0, 0x90, 0x28, 0xBC], [0xF0, 0x28, 0x8C, 0x28], [0xC3, 0xA9, 0xC3, 0xA9, 0xC3, 0xA9, 0xC3, 0xA9], [0xC3, 0xA9, 0xC3, 0xA9, 0xC3, 0xA9, 0xC3, 0xA9, 0xC3]]
+  for bs in almost do
+    for h in repsOf bs do
+      out := out.push s!"hex utf8 {h}"
+  -- random texts over a mixed alphabet, and their bytes with one byte damaged
+  let alpha : List Nat := [0x41, 0x7A, 0x20, 0xE9, 0x3B1, 0x7FF, 0x800, 0x20AC, 0xFFFD, 0x10000, 0x1F600, 0x10FFFF]
+  for _ in [0:randomCases] do
+    let (r', len) := rng.below 6
+    rng := r'
+    let (r', cs) := (List.range len).foldl (fun (acc : Rng × List Char) _ =>
+      let (r, a) := acc.1.pick alpha; (r, Char.ofNat a :: acc.2)) (r', [])
+    rng := r'
+    out := out.push s!"hex ofstr {showTextTok cs}"
+    let bs := U8.encAll cs
+    for h in repsOf bs do
+      out := out.push s!"hex utf8 {h}"
+    if bs ≠ [] then
+      let (r', i) := rng.below bs.length
+      let (r', v) := r'.below 256
+      rng := r'
+      for h in repsOf (bs.set i (UInt8.ofNat v)) do
+        out := out.push s!"hex utf8 {h}"
   -- malformed texts for from_str
   for t in ["0", "0g", "zz", "0-1", "-", "--", "AB-cd", "ab cd", "é", "0é", "01-02-", "-01"] do
     out := out.push s!"hex fromstr {showTextTok t.toList}"
